@@ -19,6 +19,8 @@ O1 = (1, 3, 6, 1, 2, 1, 1, 6, 0)
 O2 = (1, 3, 6, 1, 2, 1, 2, 2, 1, 10, 16384)
 O3 = (1, 3, 6, 1, 4, 1, 4294967295, 1)
 FRESH = [O1, O2, O3]
+# long and wide names: BER content of 129 / 253 / 635 octets
+WIDE = [(1, 3) + (300,) * 64, (1, 3) + (16383,) * 126, (2, 39) + (4294967295,) * 126 + (5,)]
 
 
 def resolve(vbs):
@@ -28,6 +30,8 @@ def resolve(vbs):
     for kind, ch in vbs:
         if ch == "req":
             oid = R
+        elif isinstance(ch, str) and ch.startswith("w"):
+            oid = WIDE[int(ch[1:])]
         elif ch == "dup" and out:
             oid = out[-1][0]
         else:
@@ -99,12 +103,18 @@ def gen_cases(tier):
             if cfg.version == "v3":
                 for rr in ("echo", "zero", "other"):
                     yield {"driver": "split", "cfg": cfg.describe(), "op": op, "vbs": [], "report": True, "report_rid": rr}
+            # long / wide OIDs as varbind names (and, for the OID kind, as value next to them)
+            for wi in range(len(WIDE)):
+                for k in ("int", "octets", "oid", "null", "nosuchinstance"):
+                    yield {"driver": "split", "cfg": cfg.describe(), "op": op, "vbs": [[k, "w%d" % wi]], "report": False}
+                    yield {"driver": "split", "cfg": cfg.describe(), "op": op, "vbs": [["int", "req"], [k, "w%d" % wi]], "report": False}
+                    yield {"driver": "split", "cfg": cfg.describe(), "op": op, "vbs": [[k, "w%d" % wi], ["octets", "o"]], "report": False}
     for driver in ("sync", "async"):
         for cfg in (Cfg("v1"), Cfg("v2c"), Cfg("v3"), Cfg("v3", auth=2, priv=2)):
             for op in ("get", "get_many"):
                 for vbs in enumerate_vbs(2 if tier == "thorough" else 1):
                     yield {"driver": driver, "cfg": cfg.describe(), "op": op, "vbs": vbs, "report": False}
-                for vbs in ([["int", "req"], ["int", "o"]], [["null", "req"], ["octets", "dup"]]):
+                for vbs in ([["int", "req"], ["int", "o"]], [["null", "req"], ["octets", "dup"]], [["int", "w0"]], [["int", "req"], ["octets", "w2"]]):
                     yield {"driver": driver, "cfg": cfg.describe(), "op": op, "vbs": vbs, "report": False}
                 yield {"driver": driver, "cfg": cfg.describe(), "op": op, "vbs": [], "report": False, "silent": True}
                 if cfg.version == "v3":
@@ -137,7 +147,7 @@ def run_case(case, worlds=None):
         if o.kind != "ok":
             return ("send-ok", None), o, 1
         data = w.take_request()
-        req = drivers.open_request(cfg, data)
+        req = drivers.open_request(cfg, data, strict=False, check_mac=False)
         rep, vbs = build_reply(cfg, req, case)
         w.inject(rep)
         out = w.recv(op)
@@ -150,7 +160,7 @@ def run_case(case, worlds=None):
     def responder(data, idx):
         if case.get("silent"):
             return []
-        req = drivers.open_request(cfg, data)
+        req = drivers.open_request(cfg, data, strict=False, check_mac=False)
         rep, vbs = build_reply(cfg, req, case)
         holder["vbs"] = vbs
         return [rep]
